@@ -358,6 +358,10 @@ func (env *Env) buildBuilt(idx int, fs FuncSpec, opts []am.Arg) (*am.Func, error
 				panic(fmt.Sprintf("harness: built output %v not found in value set", l))
 			}
 			p.Value = MkValue(l.Type, t)
+			if c, ok := ifaceImpl[l.Type]; ok {
+				// as a callback using reflect.ValueOf(impl) would do it: a value of the implementing type
+				p.Value = MkValue(c, t)
+			}
 			ex.Outs = append(ex.Outs, t)
 		}
 		var ret error
